@@ -5,7 +5,7 @@ it: seeded/<name>/meta.json 'detected_by' and seeded/MATRIX.json.   usage: pytho
 import json, os, re, subprocess, sys, shutil
 
 ROOT = '/verif'
-EXTRA = {'C01': ['C03', 'C04', 'C05'], 'C04': ['C01'], 'C05': ['C04'], 'C02': ['C06', 'C07']}
+EXTRA = {'C01': ['C03', 'C04', 'C05'], 'C04': ['C01'], 'C05': ['C04'], 'C02': ['C06', 'C07'], 'C08': ['C07'], 'C10': ['C08']}
 
 
 def sh(cmd, **kw):
